@@ -202,6 +202,9 @@ Inductive hop :=
 | HNew (h : N) (sh : shape) (kid_handles : list N)
 | HComplete (h : N) (kid_handles : list N)
 | HDrop (h : N)
+| HDropRebuild (h h2 : N)      (* drop the last reference to a type that has a weakref callback which
+                                  rebuilds the same description (as handle h2) while the type is dying:
+                                  PyObject_ClearWeakRefs runs the callback BEFORE remove_dead_unique_reference *)
 | HCollect.
 
 Fixpoint lowest_free (h : list tobj) (a : N) (fuel : nat) : N :=
@@ -278,6 +281,27 @@ Definition hstep (s : state) (o : hop) : state * hout :=
   | HDrop h =>
       let s1 := fst (step s (Unhandle h)) in
       (cascade s1 (length (heap s1)), HOk)
+  | HDropRebuild h h2 =>
+      match hlookup h (handles s) with
+      | None => (s, HBad)
+      | Some i =>
+          let s1 := fst (step s (Unhandle h)) in
+          match find_obj i (heap s1) with
+          | None => (s, HBad)
+          | Some o =>
+              if has_handle s1 i || has_parent (heap s1) i then (s, HBad)   (* harness error: not the last reference *)
+              else
+                let s2 := fst (step s1 (GcClear [i])) in                    (* weakrefs cleared ... *)
+                let a := lowest_free (heap s2) 1 (S (length (heap s2))) in
+                match step s2 (New h2 (t_shape o) (t_kids o) a) with        (* ... callback rebuilds ... *)
+                | (s3, ORet j) =>
+                    let s4 := fst (step s3 (Free i)) in                     (* ... dealloc goes on *)
+                    (cascade s4 (length (heap s4)),
+                     match first_handle_of j h2 (handles s3) with Some h' => HSame h' | None => HFresh end)
+                | (s3, _) => (s, HBad)
+                end
+          end
+      end
   | HCollect =>
       let fuel := (length (heap s) * S (length (heap s)) + length (handles s) + 1)%nat in
       let live := reach (heap s) (map snd (handles s)) [] fuel in
